@@ -179,6 +179,10 @@ def run_list_trace(item):
         bad = BAD_MEMBERS[item["id"] % len(BAD_MEMBERS)]
         if a["op"] == "append":
             out, _ = outcome(lambda: sl.appendSelector(bad if a["s"] == "#bad" else a["s"]))
+        elif a["op"] == "setitem":
+            # the place named from the front or (every second time) from the end
+            idx = a["i"] - 1 if (item["id"] + a["i"]) % 2 else a["i"] - 1 - sl.length
+            out, _ = outcome(lambda: sl.__setitem__(idx, bad if a["s"] == "#bad" else a["s"]))
         else:
             out, _ = outcome(lambda: setattr(sl, "selectorText", ", ".join(bad if s == "#bad" else s for s in a["ss"])))
         cssutils.log.raiseExceptions = True
